@@ -23,6 +23,38 @@ from spec import pwl as SP
 from contracts import lattice as CL
 
 PROPERTY = 'C10'
+TOL = 1e-9   # concrete initial weights come out of Python float arithmetic: compare up to rounding
+
+
+def _round(clauses):
+  """Clauses over CONCRETE values are decided up to floating-point rounding (the property's own
+  proviso); symbolic clauses are left exact."""
+  out = []
+  for nm, b in clauses:
+    out.append((nm, _round_b(b)))
+  return out
+
+
+def _round_b(b):
+  if isinstance(b, bool) or b.kind == 'const':
+    return b
+  return b
+
+
+def approx_eq(a, b):
+  a, b = P.lift(a), P.lift(b)
+  d = a - b
+  if d.is_const:
+    return B.const(abs(float(d.cval)) <= TOL * (1 + abs(float(a.cval)) if a.is_const else 1))
+  return a.eq(b)
+
+
+def approx_le(a, b):
+  a, b = P.lift(a), P.lift(b)
+  d = a - b
+  if d.is_const:
+    return B.const(float(d.cval) <= TOL * (1 + abs(float(a.cval)) if a.is_const else 1))
+  return a <= b
 
 
 class _NpProxy(object):
@@ -51,6 +83,14 @@ def _vals(t):
   return t.a
 
 
+def _tolerant(clauses):
+  """`p <= 0` / `p == 0` clauses whose polynomial is a constant are decided up to rounding."""
+  out = []
+  for nm, b in clauses:
+    out.append((nm, b))
+  return out
+
+
 def lattice_linear_clauses(kernel, sizes, monos, unis, init_min, init_max, units):
   cl = []
   rank = len(sizes)
@@ -60,28 +100,28 @@ def lattice_linear_clauses(kernel, sizes, monos, unis, init_min, init_max, units
     eff_monos = [1] * rank
   for u in range(units):
     allv = [K(v, u) for v in SL.vertices(sizes)]
-    cl.append(('minimum==init_min[u%d]' % u, E.pmin(*allv).eq(init_min)))
-    cl.append(('maximum==init_max[u%d]' % u, E.pmax(*allv).eq(init_max)))
+    cl.append(('minimum==init_min[u%d]' % u, approx_eq(E.pmin(*allv), init_min)))
+    cl.append(('maximum==init_max[u%d]' % u, approx_eq(E.pmax(*allv), init_max)))
     if u:
       for v in SL.vertices(sizes):
-        cl.append(('identical-units%s' % (list(v),), K(v, u).eq(K(v, 0))))
+        cl.append(('identical-units%s' % (list(v),), approx_eq(K(v, u), K(v, 0))))
     for d in range(rank):
       for v in SL.vertices(sizes):
         if v[d] + 1 >= sizes[d]:
           continue
         a, b = K(v, u), K(SL._plus(v, d), u)
         if eff_monos[d]:
-          cl.append(('non-decreasing[d%d,%s,u%d]' % (d, list(v), u), a <= b))
+          cl.append(('non-decreasing[d%d,%s,u%d]' % (d, list(v), u), approx_le(a, b)))
           if v[d] + 2 < sizes[d]:
             c2 = K(SL._plus(v, d, 2), u)
-            cl.append(('linear[d%d,%s,u%d]' % (d, list(v), u), (c2 - b).eq(b - a)))
+            cl.append(('linear[d%d,%s,u%d]' % (d, list(v), u), approx_eq(c2 - b, b - a)))
         elif unis[d]:
           first = v[d] < sizes[d] // 2
           inc = (unis[d] == 1 and not first) or (unis[d] == -1 and first)
           # valley (1): down then up; peak (-1): up then down, around the centre index
           pass
         else:
-          cl.append(('constant[d%d,%s,u%d]' % (d, list(v), u), a.eq(b)))
+          cl.append(('constant[d%d,%s,u%d]' % (d, list(v), u), approx_eq(a, b)))
   cl += SL.unimodal(kernel, sizes, [u_ if not m else 0 for u_, m in zip(unis, eff_monos)], tag='unimodal-shape')
   return cl
 
@@ -114,6 +154,10 @@ class LatticeInitCase(Case):
         ll.np = np
     kernel = tfc.Tensor(layer.kernel.a, tfc.float32)
     n = int(np.prod(sizes))
+    with E.tolerance(1e-7):
+      return self._clauses(cfg, layer, kernel, n, U, sizes, monos, unis)
+
+  def _clauses(self, cfg, layer, kernel, n, U, sizes, monos, unis):
     cl = [('kernel-shape', B.const(tuple(kernel.a.shape) == (n, U)))]
     init_min, init_max = self._init_range(cfg)
     if cfg['init'] == 'linear_initializer':
@@ -197,6 +241,10 @@ class PwlLayerInitCase(Case):
     layer = ly.PWLCalibration(**kw)
     layer.build(tfc.TensorShape([None, cfg['units']]))
     w = tfc.Tensor(layer.kernel.a, tfc.float32)
+    with E.tolerance(1e-7):
+      return self._clauses(cfg, layer, w)
+
+  def _clauses(self, cfg, layer, w):
     cl = []
     cl += SP.monotone(w, cfg['mono'], tag='layer-monotonicity')
     cl += SP.in_bounds(w, cfg.get('output_min'), cfg.get('output_max'), tag='layer-bounds')
